@@ -117,8 +117,8 @@ def run_coq(ctx, prefix, cases, per_file=300):
             if p.poll() is None and pending:
                 still.append((name, start, p))
                 continue
-            out = p.communicate()[0]
-            if p.returncode != 0:
+            rc, out = common.coq_result(d, name, p)
+            if rc != 0:
                 errors.append(f"{name}: {out[-1200:]}")
             else:
                 failing += [start + i for i in common.parse_nat_list(out)]
